@@ -3,12 +3,15 @@
 package firewall
 
 import (
-	"math/big"
 	"errors"
 	"fmt"
+	"math/big"
+	"reflect"
 	"strings"
 	"sync"
 	"testing"
+	"time"
+	"unsafe"
 
 	"github.com/keep-network/keep-core/internal/verifkit"
 	"github.com/keep-network/keep-core/pkg/chain/local_v1"
@@ -108,11 +111,15 @@ type c21Step struct {
 	peer     int
 	app      int
 	answer   int
+	age      int // > 0: not a validation but "age minutes of virtual time pass"
 }
 
 func (s c21Step) String() string {
 	if s.validate {
 		return fmt.Sprintf("V%d", s.peer)
+	}
+	if s.age > 0 {
+		return fmt.Sprintf("AGE(%dm)", s.age)
 	}
 	return fmt.Sprintf("S(a%d,p%d=%s)", s.app, s.peer, c21AnswerNames[s.answer])
 }
@@ -229,11 +236,23 @@ func c21RunHistory(r *verifkit.Run, keys []*operator.PublicKey, index map[string
 	policy := AnyApplicationPolicy(apps, NewAllowList(allowKeys))
 
 	var remembered [c21Peers]int
+	var ageMin [c21Peers]int      // virtual minutes since remembered[p] was established
 	var sawError [c21Peers]bool   // an error answer was given for the peer
 	var errPending [c21Peers]bool // last decision for the peer failed on an error, nothing may be remembered
 	changed := false
 
 	for si, st := range h.steps {
+		if !st.validate && st.age > 0 {
+			if !c21AgeCaches(policy, time.Duration(st.age)*time.Minute) {
+				stats["aging_unavailable"]++
+				return nontrivial, stats
+			}
+			stats["agings"]++
+			for p := 0; p < c21Peers; p++ {
+				ageMin[p] += st.age
+			}
+			continue
+		}
 		if !st.validate {
 			if w.answers[st.app][st.peer] != st.answer {
 				changed = true
@@ -259,7 +278,22 @@ func c21RunHistory(r *verifkit.Run, keys []*operator.PublicKey, index map[string
 			continue
 		}
 
+		// a remembered verdict whose caching period has passed (in virtual
+		// time; ages are multiples of 25 min, so never within 5 min of a
+		// period boundary) may no longer be reused
+		expired := c21None
+		if (remembered[p] == c21Pos && ageMin[p] > c21PosPeriodMin) || (remembered[p] == c21Neg && ageMin[p] > c21NegPeriodMin) {
+			expired = remembered[p]
+			remembered[p] = c21None
+			if h.apps > 0 {
+				nontrivial = true
+			}
+		}
+
 		calls := append([]c21Call(nil), w.calls...)
+		if expired != c21None && len(calls) > 0 {
+			stats["requeried_after_expiry"]++
+		}
 		if len(calls) == 0 {
 			// no application was asked: the verdict is either a reused
 			// earlier answer or (no applications at all) a rejection
@@ -280,11 +314,16 @@ func c21RunHistory(r *verifkit.Run, keys []*operator.PublicKey, index map[string
 					r.Violation("admitted-without-applications", "peer admitted although there is no application and no allowlist entry", stepDesc, nil)
 				}
 				remembered[p] = c21Neg
+				ageMin[p] = 0
 			default:
 				// nothing may be remembered for this peer, yet nobody was asked
 				fp := "verdict-without-query"
 				what := "verdict given without asking any application although no earlier answer exists for the peer"
-				if errPending[p] {
+				if expired == c21Pos {
+					fp, what = "expired-positive-reused", fmt.Sprintf("a recognition older than its caching period (%d virtual minutes > %d) was reused without asking any application", ageMin[p], c21PosPeriodMin)
+				} else if expired == c21Neg {
+					fp, what = "expired-negative-reused", fmt.Sprintf("a rejection older than its caching period (%d virtual minutes > %d) was reused without asking any application", ageMin[p], c21NegPeriodMin)
+				} else if errPending[p] {
 					if admitted {
 						fp, what = "error-remembered-as-admission", "after a failed recognition check the peer was admitted without asking any application again"
 					} else {
@@ -323,6 +362,7 @@ func c21RunHistory(r *verifkit.Run, keys []*operator.PublicKey, index map[string
 				r.Violation("recognized-rejected-by-later-failure", "an application recognised the peer before any check failed, but the peer was rejected because a later application failed: "+fmt.Sprint(err), stepDesc, c21CallNames(calls))
 			}
 			remembered[p] = c21Pos
+			ageMin[p] = 0
 			errPending[p] = false
 			continue
 		}
@@ -349,6 +389,7 @@ func c21RunHistory(r *verifkit.Run, keys []*operator.PublicKey, index map[string
 				r.Violation("recognized-rejected", "an application recognised the peer and none failed, but the peer was rejected: "+err.Error(), stepDesc, c21CallNames(calls))
 			}
 			remembered[p] = c21Pos
+			ageMin[p] = 0
 			errPending[p] = false
 		default:
 			stats["decisions_no"]++
@@ -366,6 +407,7 @@ func c21RunHistory(r *verifkit.Run, keys []*operator.PublicKey, index map[string
 				}
 			}
 			remembered[p] = c21Neg
+			ageMin[p] = 0
 			errPending[p] = false
 		}
 	}
@@ -395,7 +437,7 @@ func TestVerif_C21_Policy(t *testing.T) {
 	r := verifkit.Start(t, "C21", "policy")
 	defer r.Finish()
 	r.SetRule("histories from the PRNG: 0-3 scripted applications, 6 peers (0-2 allowlisted), 1-30 validations interleaved with changes of single (application, peer) answers among yes/no/error; each validation is decided from the answers the stubs actually gave during it and from the verdicts a reference remembers. non-trivial = an error answer was given during the history or a scripted answer changed")
-	r.Assume("cache expiry is not exercised: the caching periods are 12 h / 1 h and a run lasts seconds, so every remembered verdict is still inside its period")
+	r.Assume("this part never advances time: every remembered verdict is still inside its period (expiry is exercised by the expiry part)")
 	r.Assume("the policy is built by the production constructor AnyApplicationPolicy (real keep-common TimeCache)")
 
 	keys := c21Keys(c21Peers)
@@ -424,5 +466,125 @@ func TestVerif_C21_Policy(t *testing.T) {
 	}
 	if total["requeried_after_error"] == 0 || total["reused_negative"] == 0 || total["reused_positive"] == 0 {
 		r.Inconclusive("the workload never exercised a cache reuse or a re-query after an error")
+	}
+}
+
+// caching periods in minutes, from the production constants
+var (
+	c21PosPeriodMin = int(PositiveIsRecognizedCachePeriod / time.Minute)
+	c21NegPeriodMin = int(NegativeIsRecognizedCachePeriod / time.Minute)
+)
+
+// c21AgeCaches lets d of virtual time pass for the policy: every time stamp
+// held by a keep-common TimeCache reachable from the policy struct is moved d
+// into the past, under the cache's own mutex. Nothing else is touched, so the
+// production expiry logic (Sweep / Has / Add) runs unmodified on the aged
+// entries. The caches are found reflectively (any field of type
+// *cache.TimeCache), so renaming or adding a cache does not blind the monitor.
+// Returns false when no cache was found or its layout is not the expected one.
+func c21AgeCaches(policy interface{}, d time.Duration) bool {
+	v := reflect.ValueOf(policy)
+	for v.Kind() == reflect.Ptr || v.Kind() == reflect.Interface {
+		if v.IsNil() {
+			return false
+		}
+		v = v.Elem()
+	}
+	if v.Kind() != reflect.Struct {
+		return false
+	}
+	found := 0
+	for i := 0; i < v.NumField(); i++ {
+		f := v.Field(i)
+		if f.Kind() != reflect.Ptr || f.IsNil() || f.Type().Elem().Kind() != reflect.Struct || f.Type().Elem().Name() != "TimeCache" {
+			continue
+		}
+		tc := f.Elem()
+		cf, mf := tc.FieldByName("cache"), tc.FieldByName("mutex")
+		if !cf.IsValid() || !mf.IsValid() || !cf.CanAddr() || !mf.CanAddr() {
+			return false
+		}
+		m, ok1 := reflect.NewAt(cf.Type(), unsafe.Pointer(cf.UnsafeAddr())).Elem().Interface().(map[string]time.Time)
+		mu, ok2 := reflect.NewAt(mf.Type(), unsafe.Pointer(mf.UnsafeAddr())).Interface().(*sync.RWMutex)
+		if !ok1 || !ok2 {
+			return false
+		}
+		mu.Lock()
+		for k, ts := range m {
+			m[k] = ts.Add(-d)
+		}
+		mu.Unlock()
+		found++
+	}
+	return found > 0
+}
+
+// c21GenAgingHistory is c21GenHistory with "virtual time passes" steps mixed
+// in: 25 min (three of them outlive a rejection) and 425 min (one outlives a
+// rejection, two a recognition). All reachable ages are multiples of 25 min;
+// the periods (60 and 720 min) are not, so no verdict is ever evaluated within
+// 5 virtual minutes of its expiry and the seconds a run really takes cannot
+// change the outcome.
+func c21GenAgingHistory(rng interface{ Intn(int) int }) *c21History {
+	h := c21GenHistory(rng)
+	profile := rng.Intn(3) // 0: short steps mostly, 1: long steps mostly, 2: mixed, rare
+	var out []c21Step
+	for _, st := range h.steps {
+		out = append(out, st)
+		var doAge bool
+		switch profile {
+		case 0, 1:
+			doAge = rng.Intn(3) == 0
+		default:
+			doAge = rng.Intn(8) == 0
+		}
+		if !doAge {
+			continue
+		}
+		age := 25
+		if (profile == 1 && rng.Intn(4) != 0) || (profile != 1 && rng.Intn(4) == 0) {
+			age = 425
+		}
+		out = append(out, c21Step{age: age})
+	}
+	h.steps = out
+	return h
+}
+
+func TestVerif_C21_Expiry(t *testing.T) {
+	r := verifkit.Start(t, "C21", "expiry")
+	defer r.Finish()
+	r.SetRule("the histories of the policy part with steps 'N minutes of virtual time pass' mixed in (25 or 425 min; the time stamps inside the policy's keep-common TimeCaches are moved into the past under the caches' own mutex, the production expiry code runs unmodified). A remembered verdict may be reused only while younger than its production caching period (1 h for rejections, 12 h for recognitions); after that a validation must ask the applications again and follow their current answers. non-trivial = an error answer was given, a scripted answer changed or a remembered verdict expired before a validation")
+	r.Assume("virtual ages are multiples of 25 min, the periods are not: no verdict is evaluated within 5 virtual minutes of its expiry, so the real duration of a history (microseconds) cannot change a verdict")
+	r.Assume("the policy is built by the production constructor AnyApplicationPolicy; its TimeCache fields are located reflectively")
+
+	keys := c21Keys(c21Peers)
+	index := map[string]int{}
+	for i, k := range keys {
+		index[k.String()] = i
+	}
+	n := r.N(20000, 200000)
+	var mu sync.Mutex
+	total := map[string]int64{}
+	verifkit.Parallel(n, 0, func(i int) {
+		h := c21GenAgingHistory(r.SubRand("aging-history", i))
+		nt, stats := c21RunHistory(r, keys, index, h)
+		r.Case(h.desc(), nt)
+		mu.Lock()
+		for k, v := range stats {
+			total[k] += v
+		}
+		mu.Unlock()
+		if i < 4 {
+			r.Sample(map[string]interface{}{"history": h.desc(), "nontrivial": nt, "stats": stats})
+		}
+	})
+	for k, v := range total {
+		r.Count(k, v)
+	}
+	if total["aging_unavailable"] > 0 {
+		r.Inconclusive("no keep-common TimeCache with the expected layout was found in the policy: virtual time could not be advanced")
+	} else if total["requeried_after_expiry"] == 0 || total["reused_negative"] == 0 || total["reused_positive"] == 0 {
+		r.Inconclusive("the workload never exercised a reuse inside the period and a re-query after expiry")
 	}
 }
